@@ -2,16 +2,16 @@ from props_common import STD_NOTE
 
 PID = "C18"
 _T = """c18_weights_lt1 c18_weights_nan c18_weights_valid c18_gen_budget_lt1 c18_gen_budget_nan
-c18_gen_form_circuit c18_gen_form_dict c18_gen_q1_unseparated c18_gen_label c18_gen_valid_circuit c18_gen_valid_dict
-c18_pp_label_count c18_pp_obs_size c18_pp_phase c18_pp_clbits c18_pp_wide_gate c18_pp_unsupported c18_pp_none_label c18_pp_valid
+c18_gen_form_circuit c18_gen_form_dict c18_gen_q1_unseparated c18_gen_label c18_gen_phase_dict c18_gen_obs_size c18_gen_valid_circuit c18_gen_valid_dict
+c18_pp_label_count c18_pp_obs_size c18_pp_phase c18_pp_clbits c18_pp_wide_gate c18_pp_unsupported c18_pp_none_label c18_pp_valid c18_pp_idle_explicit c18_pp_idle_auto
 c18_pcq_label_count c18_pcq_wide_gate c18_pcq_unsupported c18_pcq_frame c18_pcq_valid
-c18_cg_clbits c18_cg_unsupported c18_cg_frame c18_cg_valid
+c18_cg_clbits c18_cg_unsupported c18_cg_unsupported_total c18_cg_frame c18_cg_valid
 c18_fi_unbound c18_fi_matrix c18_fi_unsupported c18_fi_valid_registered c18_fi_valid_kak c18_theta_unbound
 c18_device_width c18_device_valid c18_settings_gamma c18_settings_backjumps c18_settings_valid
 c18_fc_gamma c18_fc_backjumps c18_fc_wide_gate c18_fc_unbound c18_fc_valid
 c18_rc_form_plist c18_rc_form_dict c18_rc_form_other c18_rc_keys c18_rc_phase_plist c18_rc_phase_dict c18_rc_counts
 c18_rc_valid_plist c18_rc_valid_dict
-c18_dq_group_size c18_dq_non_qpd c18_dq_bases_differ c18_dq_total c18_dq_map_count c18_dq_map_range c18_dq_frame c18_dq_valid
+c18_dq_group_size c18_dq_non_qpd c18_dq_bases_differ c18_dq_total c18_dq_map_count c18_dq_map_range c18_dq_map_none c18_dq_unset_no_maps c18_dq_group_size_total c18_dq_non_qpd_total c18_dq_frame_no_maps c18_dq_frame_partial c18_dq_frame c18_dq_valid
 c18_basis_empty c18_basis_wide c18_basis_ragged c18_basis_coeffs c18_set_coeffs c18_basis_valid
 c18_bid_range c18_q1_half c18_q1_bid c18_q1_valid c18_q2_arity c18_q2_bid c18_q2_valid
 c18_sep_label_count c18_sep_none_used c18_sep_spans c18_sep_valid c18_exp_count c18_exp_missing c18_exp_valid
@@ -27,26 +27,44 @@ ENTRY = dict(
         allowed_axioms=[],
         facts=["value_error_sites", "c18_guards"],
         harness="c18",
-        level_text="Unbounded theorems about the executable model of the validation blocks of 27 functions (22 entry points): one implication "
+        level_text="Unbounded theorems about the executable model of the validation blocks of 29 functions (22 entry points): one implication "
                    "per documented error class, each for EVERY position of the offending element and arbitrary other input (all list "
                    "lengths, all rationals incl. NaN/inf budgets), the frame theorems (a refusal leaves the argument of the three "
-                   "inplace-capable functions untouched) and a converse `valid -> Proceeds` per entry point. Closed under the global "
-                   "context. The ordered guard list of every modelled function is a regenerated fact that must equal the list written in "
-                   "Properties/C18.v. The model is run against the implementation on >1200 generated calls per run with deep before/after "
-                   "snapshots of every argument.",
+                   "inplace-capable functions untouched; for decompose_qpd_instructions c18_dq_frame under the coverage hypothesis that "
+                   "every QPD gate occurs in instruction_ids, c18_dq_frame_partial/c18_dq_frame_no_maps otherwise), `never Proceeds` "
+                   "variants without the in-range hypotheses, and a converse `valid -> Proceeds` per entry point. Closed under the global "
+                   "context. The ordered guard list of every modelled function and its number of raise sites are regenerated facts that "
+                   "must equal what Properties/C18.v writes. The model is run against the implementation on >2500 generated calls per "
+                   "run with deep before/after snapshots of every argument.",
         level_note=STD_NOTE + "No axioms.",
         assumptions=[
             "Model/Validation.v is a hand-written model of the VALIDATION blocks only (Proceeds = validation passed; what the function "
             "then computes is the business of C01..C17); tied to the source by the extracted ordered guard lists (c18_guards) and by "
             "the C18 correspondence",
-            "the input abstraction (lengths, phases, label classes, gate_desc = what QPDBasis.from_instruction reads, result counts, "
-            "number of commuting groups from ObservableCollection) is computed by the harness from the real argument objects",
+            "the input abstraction (lengths, phases, label classes, observable supports, gate_desc = what QPDBasis.from_instruction reads, "
+            "result counts) is computed by the harness from the real argument objects; the NUMBER of commuting groups is taken from the "
+            "implementation's own ObservableCollection (it is the choice of a colouring heuristic, so no independent value exists); the "
+            "harness monitors that these groups are a qubit-wise commuting partition of the distinct observables",
             "'arguments unchanged' is proved in the model only for decompose_qpd_instructions / partition_circuit_qubits / cut_gates "
-            "(state functions *_final, repaired validate-then-mutate behaviour F7/F12/F13); for every other entry point it is only "
-            "COMPARED: deep canonical snapshots of all arguments before/after each generated call",
-            "not modelled: negative Python indices into circuit.data, duplicate ids in cut_gates, empty PauliList with a "
-            "QuantumCircuit, non-numeric budgets (TypeError), zero-qubit instructions in separate_circuit beyond the assert",
+            "(state functions *_final, validate-then-mutate behaviour of the repairs F7/F12/F13 and c8b859e/32107ac); for every other "
+            "entry point it is only COMPARED: deep canonical snapshots of all arguments before/after each generated call (circuit data, "
+            "registers, name, metadata, global phase, QPD bases incl. coefficients, Pauli lists, result contents); a cached "
+            "Instruction._definition is not part of the snapshot",
+            "OBSERVATION (outside the quantifier, compared but not judged): generate_cutting_experiments(QuantumCircuit, PauliList) "
+            "silently drops a phase of an observable (observables_restricted_to_subsystem rebuilds the Paulis from z/x); the phase "
+            "restriction is documented for partition_problem and reconstruct_expectation_values, which refuse it, and for the dictionary "
+            "form (refused through CommutingObservableGroup), but not for this call form, and the generated experiments do not depend "
+            "on the phase",
+            "OBSERVATION (undocumented, compared but not judged): generate_cutting_experiments with dictionaries whose key sets differ: "
+            "an observables label missing from circuits gives KeyError (Crashed in the model), a circuits label missing from observables "
+            "is silently ignored",
+            "OBSERVATION: decompose_qpd_instructions with REPEATED indices in instruction_ids (e.g. [[0],[0]] on two gates) passes the "
+            "count check, assigns gate 0 and is then refused for gate 1's unset basis_id, i.e. after the argument was modified "
+            "(Example c18_ex_duplicate_ids_break_frame); repeated indices are not a documented error class and are not generated",
+            "not modelled: negative Python indices into circuit.data, empty PauliList with a QuantumCircuit, non-numeric budgets "
+            "(TypeError), zero-qubit instructions in separate_circuit beyond the assert, map ids that are floats",
             "when KNOWN_FINDINGS.json lists F7/F12/F13 as known, the inplace=True calls of that function are compared with the "
-            "model of the current interleaved loop (dq_run_interleaved, pcq_run_interleaved, cg_run_interleaved) instead",
+            "model of the historic interleaved loop (dq_run_interleaved, pcq_run_interleaved, cg_run_interleaved) instead; /repo HEAD "
+            "carries the repairs, so this route is dormant",
         ],
     )
